@@ -243,13 +243,16 @@ json damaged_plan(Rng &r, int tier)
 	tg.max_items = 6;
 	tg.ctx_flags = flags;
 	tg.comments = (int)r.below(3);
-	tg.include_targets = {"/c02/inc.conf", "/c02/dir", "/c02/missing"};
+	tg.include_targets = {"/c02/inc.conf", "/c02/dir", "/c02/missing", "/c02/self.conf", "/c02/chain0.conf", "/c02/chain2.conf"};
 	std::string valid = chunks_text(gen_text(r, schema["opts"], tg));
 	json meta = json::array();
 	std::string bad = damage(r, valid, meta);
 	// route
 	unsigned route = (unsigned)r.below(4);
-	json fs = json::array({{{"path", "/c02/dir"}, {"kind", "dir"}}, fs_file("/c02/inc.conf", "# included\n")});
+	json fs = json::array({{{"path", "/c02/dir"}, {"kind", "dir"}}, fs_file("/c02/inc.conf", "# included\n"), fs_file("/c02/self.conf", "include(\"/c02/self.conf\")\n")});
+	// a chain that is exactly as deep as the include stack when entered at chain2, and two deeper from chain0
+	for (int k = 0; k < 12; k++)
+		fs.push_back(fs_file("/c02/chain" + std::to_string(k) + ".conf", k < 11 ? "include(\"/c02/chain" + std::to_string(k + 1) + ".conf\")\n" : "# leaf\n"));
 	json steps = json::array();
 	json init = step(0, "init", 0);
 	init["flags"] = flags;
